@@ -65,6 +65,31 @@ def css_read(s):
     return tuple(int(math.floor(255 * v + 0.5)) for v in (c.red, c.green, c.blue))
 
 
+def css_read_over(s, bg):
+    """what a CSS consumer displays for the colour string `s` on the opaque background `bg`: the colour itself when opaque,
+    its exact composite (rounded half-even per channel) when translucent; None when it is not a CSS Color 3 value"""
+    import tinycss2.color3 as c3
+    from fractions import Fraction
+    if not isinstance(s, str):
+        return None
+    try:
+        c = c3.parse_color(s)
+    except Exception:
+        return None
+    if c is None or c == "currentColor":
+        return None
+    if c.alpha == 1:
+        return tuple(int(math.floor(255 * v + 0.5)) for v in (c.red, c.green, c.blue))
+    a = Fraction(repr(float(c.alpha)))
+    out = []
+    for v, k in zip((c.red, c.green, c.blue), bg):
+        x = Fraction(repr(float(v))) * 255 * a + Fraction(k) * (1 - a)
+        n = x.numerator // x.denominator
+        f = x - n
+        out.append(n + 1 if f > Fraction(1, 2) or (f == Fraction(1, 2) and n % 2 == 1) else n)
+    return tuple(out)
+
+
 def w_api(case):
     """ColorPair(text, bg, large).make_readable(mode, very) plus read-back of the result"""
     text_sp, bg_sp, large, mode, very = case
@@ -87,6 +112,12 @@ def w_api(case):
             out["rb_own_err"] = type(e).__name__ + ": " + str(e)[:120]
         if isinstance(res, str):
             out["rb_css"] = css_read(res)
+            if out["rb_css"] is None:
+                # a translucent answer is judged as it is displayed: over the pair's own background
+                shown = css_read_over(res, tuple(pair.bg.rgb))
+                if shown is not None:
+                    out["rb_css"] = shown
+                    out["rb_translucent"] = True
         out["after"] = (tuple(pair.text.rgb), tuple(pair.bg.rgb), pair.large)
     except Exception as e:  # noqa
         out["raise"] = type(e).__name__ + ": " + str(e)[:200]
